@@ -365,6 +365,13 @@ def main(tier, seed):
         operator_forms(rep, cases, seed)
         c4 = export_families(rep, "FactorsCat4", 4, 4, timeout=6000)
         replay(rep, c4, seed + 3, ["plain"], sample=20000)
+        c6 = export_families(rep, "FactorsCat6", 3, 2, catf=("f", "g", "h", "k", "m", "n"))
+        c6 = [c for c in c6 if len({f for t in c["terms"] for f in t}) >= 5]
+        replay(rep, c6, seed + 6, ["plain"], sample=3000)
+        n3 = export_families(rep, "FactorsNum3", 4, 2, catf=("f",))
+        n3 = [c for c in n3 if any(sum(1 for f in t if f in NUMS) >= 3 for t in c["terms"])]
+        for k in range(6):
+            replay(rep, n3, seed + 7 + k, ["plain"], shuffle=True)
         pick_traces(rep, 8000, seed)
     rep.exhaustive = not rep.notes.get("s2c_replay_sampled", False)
     return rep.finish()
